@@ -61,7 +61,8 @@ KEYS = {
              ('Tabulation', 'nr', ['5']), ('Tabulation', 'dr', ['0.25']), ('Tabulation', 'target', [' LAMMPS ']),      # (blanks around a value, as in 'target :  LAMMPS ')
              ('Potential-Form', 'cbuck(r, A, rho)', ['A*exp(-r/rho)']),
              ('Table-Form:tf', 'y', ['9 8 7 6']), ('Species', 'O.charge', ['-1.5']), ('NewSection', 'k', ['v']), ('Pair', 'U-U', ['as.zero']),
-             ('Variables', 'newvar', ['1.5'])],
+             ('Variables', 'newvar', ['1.5']),
+             ('Pair ', 'Pu-O', ['as.lj 0.25 2.3'])],        # (the section named with a trailing blank, as in '--add-item "Pair :Pu-O=..."')
     'eamnp': [('EAM-Embed', 'U', ['>=0 as.polynomial 0.5 -2.0']), ('EAM-Density', 'O', ['>=0 as.polynomial 1.0 0.5']), ('Species', 'U.lattice_constant', ['5.5']),
               ('Pair', 'U-O', ['>=0 as.morse 1.0 2.0 0.5']), ('Tabulation', 'nrho', ['4'])],
     'eam': [('EAM-Embed', 'U', ['>=0 as.polynomial 0.5 -2.0']), ('EAM-Density', 'U', ['>=0 as.polynomial 1.0 0.5']), ('EAM-Density', 'Th', ['as.zero']),
